@@ -290,6 +290,35 @@ def run_reg(case):
 # operator instances: one or more per operator class, and the composites
 
 
+# solver callbacks that record which one ran (jax.debug.callback: at RUN time, also under jit)
+CB_LOG: list[str] = []
+
+
+def captured_callback(solution) -> None:
+    """The callback of the configuration under which the instance tables build their inverses."""
+    CB_LOG.append('captured')
+
+
+def captured_callback_b(solution) -> None:
+    CB_LOG.append('captured-b')
+
+
+def ambient_callback(solution) -> None:
+    """The callback of the AMBIENT configuration of the trace-time / call-time sequences: must never run."""
+    CB_LOG.append('ambient')
+
+
+def cb_counts() -> dict:
+    import jax
+
+    jax.effects_barrier()
+    out: dict = {}
+    for t in CB_LOG:
+        out[t] = out.get(t, 0) + 1
+    CB_LOG.clear()
+    return out
+
+
 def S(shape, dt):
     import jax
 
@@ -385,12 +414,49 @@ def instances(dt_name: str, workdir: Path):
     add('addition-three', lambda: (AdditionOperator([IdentityOperator(S((3,), dt)), HomothetyOperator(jnp.asarray(2.0, dtype=dt), S((3,), dt)), DiagonalOperator(ints((3,), dt, 3), in_structure=S((3,), dt))]), x3()))
     add('negated', lambda: (-dense((2, 3), (3,), 'ij,j->i'), x3()))
 
-    def inverse_cg():
-        A = DenseBlockDiagonalOperator(jnp.array([[2.0, 1.0], [1.0, 3.0]], dtype=dt), S((2,), dt), 'ij,j->i')
-        with Config(solver_callback=lambda s: None):
-            return InverseOperator(A), jnp.array([1.0, 2.0], dtype=dt)
+    # --- operators that HOLD a solver configuration (captured when they are built).  `coarse` stops CG after
+    # one step (of the three a 3x3 system needs): the result then depends visibly on the solver, the preconditioner and the initial guess, so a
+    # configuration read at the wrong time (trace / call) or a conflated cache entry changes the values.
+    import lineax as lx
 
-    add('inverse-cg', inverse_cg, exact=False, tol=1e-4)  # CG stops at rtol=atol=1e-6
+    spd = lambda: DenseBlockDiagonalOperator(jnp.array([[4.0, 1.0, 0.0], [1.0, 3.0, 1.0], [0.0, 1.0, 2.0]], dtype=dt), S((3,), dt), 'ij,j->i')  # noqa: E731
+    d2 = lambda: DiagonalOperator(jnp.array([2.0, 4.0, 8.0], dtype=dt), in_structure=S((3,), dt))  # noqa: E731
+    b2 = lambda: jnp.array([1.0, 2.0, 3.0], dtype=dt)  # noqa: E731
+    coarse = lambda: lx.CG(rtol=1e-6, atol=1e-6, max_steps=1)  # noqa: E731
+
+    def built_under(make, cfg=lambda: {}):
+        """`cfg()` is evaluated at every build: separately built instances hold separately built (equal)
+        configuration values - solver objects, preconditioners, arrays."""
+        def build():
+            with Config(solver_callback=captured_callback, **cfg()):
+                return make(), b2()
+
+        return build
+
+    add('inverse-cg', built_under(lambda: InverseOperator(spd())), exact=False, tol=1e-4)  # CG stops at rtol=atol=1e-6
+    add('inverse-cg-throw', built_under(lambda: InverseOperator(spd()), lambda: {'solver_throw': True}), exact=False, tol=1e-4)
+    add('inverse-cg-coarse', built_under(lambda: InverseOperator(spd()), lambda: {'solver': coarse()}), exact=False, tol=1e-4)
+    add('inverse-cg-coarse-preconditioned', built_under(
+        lambda: InverseOperator(spd()),
+        lambda: {'solver': coarse(), 'solver_options': {'preconditioner': DiagonalOperator(jnp.array([0.25, 0.5, 1.0], dtype=dt), in_structure=S((3,), dt))}}), exact=False, tol=1e-4)
+    add('inverse-cg-coarse-y0', built_under(lambda: InverseOperator(spd()), lambda: {'solver': coarse(), 'solver_options': {'y0': jnp.array([1.0, 1.0, 1.0], dtype=dt)}}), exact=False, tol=1e-4)
+    add('inverse-of-addition', built_under(lambda: (spd() + d2()).I, lambda: {'solver': coarse()}), exact=False, tol=1e-4)
+    add('inverse-in-composition', built_under(lambda: spd().I @ d2(), lambda: {'solver': coarse()}), exact=False, tol=1e-4)
+    add('inverse-in-addition', built_under(lambda: spd().I + d2(), lambda: {'solver': coarse()}), exact=False, tol=1e-4)
+
+    def inverse_in_block_diagonal():
+        op, _ = built_under(lambda: BlockDiagonalOperator([spd(), d2()]).I, lambda: {'solver': coarse()})()
+        return op, [b2(), ints((3,), dt, 3)]
+
+    add('inverse-in-block-diagonal', inverse_in_block_diagonal, exact=False, tol=1e-4)
+
+    def inverse_nested_two_configs():
+        with Config(solver_callback=captured_callback):
+            inner = spd().I  # the default solver
+            with Config(solver=coarse(), solver_callback=captured_callback_b):
+                return InverseOperator(inner + d2()), b2()  # one outer step around converged inner solves
+
+    add('inverse-nested-two-configs', inverse_nested_two_configs, exact=False, tol=1e-4)
     add('lazy-inverse-orthogonal', lambda: (AbstractLazyInverseOrthogonalOperator(QURotationOperator(jnp.zeros((4,), dtype=dt), stokes_s('QU', (4,)))), stokes_x('QU', (4,))))
 
     # --- diagonal
@@ -559,6 +625,400 @@ def instances(dt_name: str, workdir: Path):
     return out
 
 
+# ------------------------------------------------------------------------------------------------
+# PAIRS of operators that differ in exactly one field of the jit cache key
+#
+# A jit that takes the operator as argument and keeps its non-array fields static keys its cache on the
+# static part of the operator: the treedef (holding the values of the static fields, compared with ==) and
+# the non-array leaves (Python ints, tuples, slices, None in dynamic fields).  Two operators that differ
+# there, passed one after the other to the SAME jitted function, must each act as they do eagerly; if their
+# keys compare equal the second one silently runs the function compiled for the first.
+
+
+def pairs(dt_name: str):
+    """name -> dict(build -> (op_a, x_a, op_b, x_b), diff = the key paths in which a and b differ,
+    exact, apply (False: boolean-mask operator, outside the jit-as-argument clause), distinct: the eager
+    results of a and b differ (so a conflated cache entry changes values / shapes / dtypes), tol)."""
+    import jax.numpy as jnp
+    import lineax as lx
+
+    import furax as fx
+    from furax import Config
+    from furax._base.blocks import BlockColumnOperator, BlockDiagonalOperator, BlockRowOperator
+    from furax._base.core import AdditionOperator, CompositionOperator, HomothetyOperator, IdentityOperator, InverseOperator
+    from furax._base.dense import DenseBlockDiagonalOperator
+    from furax._base.diagonal import BroadcastDiagonalOperator, DiagonalOperator
+    from furax._base.indices import IndexOperator
+    from furax._base.linear import PackOperator
+    from furax.landscapes import StokesPyTree
+    from furax.operators.hwp import HWPOperator
+    from furax.operators.polarizers import LinearPolarizerOperator
+    from furax.operators.qu_rotations import QURotationOperator
+    from furax.operators.toeplitz import SymmetricBandToeplitzOperator
+
+    dt = {'f32': jnp.float32, 'f64': jnp.float64}[dt_name]
+    alt = jnp.float16  # the dtype of the `other` declared structure (same shapes: the same input fits both)
+    out = {}
+
+    def add(name, build, diff, exact=True, apply=True, distinct=True, tol=None):
+        out[name] = {'build': build, 'diff': sorted(diff), 'exact': exact, 'apply': apply, 'distinct': distinct, 'tol': tol}
+
+    def two(make, a, b, x):
+        """The same constructor call with one argument changed, applied to the same input."""
+        return lambda: (make(a), x(), make(b), x())
+
+    x3 = lambda: ints((3,), dt, 2)  # noqa: E731
+    x33 = lambda: ints((3, 3), dt, 2, 11)  # noqa: E731
+    x23 = lambda: ints((2, 3), dt, 2)  # noqa: E731
+    x234 = lambda: ints((2, 3, 4), dt, 2, 11)  # noqa: E731
+    sq = lambda start=1: ints((3, 3), dt, start, 5)  # noqa: E731
+
+    def stokes_x(kind, shape, start=1):
+        return StokesPyTree.class_for(kind)(*[ints(shape, dt, start + 2 * i, 11) for i in range(len(kind))])
+
+    def stokes_s(kind, shape, d):
+        return StokesPyTree.class_for(kind).structure_for(tuple(shape), d)
+
+    # --- declared structures (static): same shapes, another dtype
+    add('identity/in_structure', two(IdentityOperator, S((3,), dt), S((3,), alt), x3), ['IdentityOperator._in_structure'], distinct=False)
+    add('homothety/in_structure', two(lambda s: HomothetyOperator(jnp.asarray(2.0, dtype=dt), s), S((3,), dt), S((3,), alt), x3), ['HomothetyOperator._in_structure'], distinct=False)
+    add('moveaxis/in_structure', two(lambda s: fx.MoveAxisOperator(0, 1, in_structure=s), S((2, 3), dt), S((2, 3), alt), x23), ['MoveAxisOperator._in_structure'], distinct=False)
+    add('dense/in_structure', two(lambda s: DenseBlockDiagonalOperator(sq(), s, 'ij,j->i'), S((3,), dt), S((3,), alt), x3), ['DenseBlockDiagonalOperator._in_structure'], distinct=False)
+    add('broadcast-diagonal/in_structure', two(lambda s: BroadcastDiagonalOperator(ints((2, 3), dt, 3), axis_destination=-1, in_structure=s), S((3,), dt), S((3,), alt), x3), ['BroadcastDiagonalOperator._in_structure'], distinct=False)
+    add('diagonal/in_structure', two(lambda s: DiagonalOperator(ints((3,), dt, 3), in_structure=s), S((3, 3), dt), S((3, 3), alt), x33), ['DiagonalOperator._in_structure'], distinct=False)
+    add('diagonal-inverse/in_structure', two(lambda s: DiagonalOperator(jnp.array([1.0, 2.0, 4.0], dtype=dt), in_structure=s).I, S((3, 3), dt), S((3, 3), alt), x33), ['DiagonalInverseOperator._in_structure', 'DiagonalOperator._in_structure'], distinct=False)
+    add('index/in_structure', two(lambda s: IndexOperator((..., jnp.array([2, 0, 2])), in_structure=s, out_structure=S((2, 3), dt)), S((2, 3), dt), S((2, 3), alt), x23), ['IndexOperator._in_structure'], distinct=False)
+    add('index/out_structure', two(lambda s: IndexOperator((..., jnp.array([2, 0, 2])), in_structure=S((2, 3), dt), out_structure=s), S((2, 3), dt), S((2, 3), alt), x23), ['IndexOperator._out_structure'], distinct=False)
+    add('pack/in_structure', two(lambda s: PackOperator(jnp.array([True, False, True]), s), S((3,), dt), S((3,), alt), x3), ['PackOperator._in_structure'], apply=False, distinct=False)
+    add('qu-rotation/in_structure', two(lambda s: QURotationOperator(jnp.zeros((4,), dtype=dt), s), stokes_s('IQU', (4,), dt), stokes_s('IQU', (4,), alt), lambda: stokes_x('IQU', (4,))), ['QURotationOperator._in_structure'], distinct=False)
+    add('hwp/in_structure', two(HWPOperator, stokes_s('IQU', (4,), dt), stokes_s('IQU', (4,), alt), lambda: stokes_x('IQU', (4,))), ['HWPOperator._in_structure'], distinct=False)
+    add('polarizer/in_structure', two(LinearPolarizerOperator, stokes_s('IQU', (4,), dt), stokes_s('IQU', (4,), alt), lambda: stokes_x('IQU', (4,))), ['LinearPolarizerOperator._in_structure'], distinct=False)
+    band = lambda: jnp.asarray([4.0, 2.0, 1.0], dtype=dt)  # noqa: E731
+    x9 = lambda: ints((9,), dt, 2, 11)  # noqa: E731
+    x23l = lambda: ints((23,), dt, 2, 11)  # noqa: E731
+    add('toeplitz/in_structure', two(lambda s: SymmetricBandToeplitzOperator(band(), s, method='direct'), S((9,), dt), S((9,), alt), x9), ['SymmetricBandToeplitzOperator._in_structure'], distinct=False)
+    add('ravel/in_structure', two(lambda s: fx.RavelOperator(0, 1, in_structure=s), S((2, 3, 4), dt), S((2, 3, 4), alt), x234), ['RavelOperator._in_structure'], distinct=False)
+    add('reshape/in_structure', two(lambda s: fx.ReshapeOperator((3, 2), in_structure=s), S((2, 3), dt), S((2, 3), alt), x23), ['ReshapeOperator._in_structure'], distinct=False)
+
+    # --- other static fields
+    add('dense/subscripts', two(lambda sub: DenseBlockDiagonalOperator(sq(), S((3,), dt), sub), 'ij,j->i', 'ji,j->i', x3), ['DenseBlockDiagonalOperator.subscripts'])
+    add('diagonal/axis_destination', two(lambda ax: DiagonalOperator(ints((3,), dt, 3), axis_destination=ax, in_structure=S((3, 3), dt)), -1, 0, x33), ['DiagonalOperator.axis_destination'])
+    add('diagonal-inverse/axis_destination', two(lambda ax: DiagonalOperator(jnp.array([1.0, 2.0, 4.0], dtype=dt), axis_destination=ax, in_structure=S((3, 3), dt)).I, -1, 0, x33), ['DiagonalInverseOperator.axis_destination', 'DiagonalOperator.axis_destination'])
+    add('broadcast-diagonal/axis_destination', two(lambda ax: BroadcastDiagonalOperator(ints((3, 3), dt, 3, 11), axis_destination=ax, in_structure=S((3,), dt)), (0, 1), (1, 0), x3), ['BroadcastDiagonalOperator.axis_destination'])
+    add('index/unique_indices', two(lambda u: IndexOperator(jnp.array([1, 0]), in_structure=S((2, 3), dt), unique_indices=u), True, False, x23), ['IndexOperator.unique_indices'], distinct=False)
+    add('index-transpose/unique_indices', two(lambda u: IndexOperator(jnp.array([1, 0]), in_structure=S((2, 3), dt), unique_indices=u).T, True, False, x23), ['IndexOperator.unique_indices'], distinct=False)
+    for m1, m2 in (('dense', 'direct'), ('direct', 'fft'), ('fft', 'dense')):
+        add(f'toeplitz/method-{m1}-{m2}', two(lambda m: SymmetricBandToeplitzOperator(band(), S((9,), dt), method=m), m1, m2, x9), ['SymmetricBandToeplitzOperator.method'], exact=False, distinct=False)
+    add('ravel/first_axis', two(lambda a: fx.RavelOperator(a, 2, in_structure=S((2, 3, 4), dt)), 0, 1, x234), ['RavelOperator.first_axis'])
+    add('ravel/last_axis', two(lambda a: fx.RavelOperator(0, a, in_structure=S((2, 3, 4), dt)), 1, 2, x234), ['RavelOperator.last_axis'])
+    add('reshape/shape', two(lambda sh: fx.ReshapeOperator(sh, in_structure=S((2, 3), dt)), (3, 2), (6,), x23), ['ReshapeOperator.shape'])
+
+    # --- Python leaves of dynamic fields (static under a filtering jit)
+    add('moveaxis/source', two(lambda a: fx.MoveAxisOperator(a, 2, in_structure=S((2, 3, 4), dt)), 0, 1, x234), ['MoveAxisOperator.source'])
+    add('moveaxis/destination', two(lambda a: fx.MoveAxisOperator(0, a, in_structure=S((2, 3, 4), dt)), 1, 2, x234), ['MoveAxisOperator.destination'])
+    add('moveaxis-transpose/destination', two(lambda a: fx.MoveAxisOperator(0, a, in_structure=S((2, 2, 2), dt)).T, 1, 2, lambda: ints((2, 2, 2), dt, 2, 11)), ['MoveAxisOperator.source'])  # (the transpose swaps the two)
+    add('toeplitz/fft_size', two(lambda n: SymmetricBandToeplitzOperator(band(), S((23,), dt), method='overlap_save', fft_size=n), 7, 5, x23l), ['SymmetricBandToeplitzOperator.fft_size'], exact=False, distinct=False)
+    add('toeplitz/fft_size-none', two(lambda n: SymmetricBandToeplitzOperator(band(), S((23,), dt), method='overlap_save', fft_size=n), None, 7, x23l), ['SymmetricBandToeplitzOperator.fft_size'], exact=False, distinct=False)  # (None: the default size is computed by the constructor)
+    add('index/int', two(lambda i: IndexOperator((i, slice(None)), in_structure=S((2, 3), dt)), 0, 1, x23), ['IndexOperator.indices'])
+    add('index/slice', two(lambda sl: IndexOperator((..., sl), in_structure=S((2, 3), dt)), slice(0, 2), slice(1, 3), x23), ['IndexOperator.indices'])
+    add('index/slice-with-array', two(lambda sl: IndexOperator((jnp.array([1, 0, 1]), sl), in_structure=S((2, 3), dt)), slice(0, 2), slice(1, 3), x23), ['IndexOperator.indices'])
+    add('index-transpose/int', two(lambda i: IndexOperator((i, slice(None)), in_structure=S((2, 3), dt)).T, 0, 1, x3), ['IndexOperator.indices'])
+
+    # --- structure of the containers of operands
+    A = lambda: DenseBlockDiagonalOperator(ints((2, 3), dt, 1, 5), S((3,), dt), 'ij,j->i')  # noqa: E731
+    B = lambda: DenseBlockDiagonalOperator(ints((2, 3), dt, 3, 5), S((3,), dt), 'ij,j->i')  # noqa: E731
+    D3 = lambda: DiagonalOperator(ints((3,), dt, 3), in_structure=S((3,), dt))  # noqa: E731
+    H3 = lambda: HomothetyOperator(jnp.asarray(2.0, dtype=dt), S((3,), dt))  # noqa: E731
+    add('block-column/keys', two(lambda k: BlockColumnOperator({'p': A(), k: B()}), 'q', 'r', x3), ['BlockColumnOperator.blocks:structure'])
+    add('block-row/keys', lambda: (BlockRowOperator({'a': A(), 'b': B()}), {'a': x3(), 'b': ints((3,), dt, 4)}, BlockRowOperator({'a': A(), 'c': B()}), {'a': x3(), 'c': ints((3,), dt, 4)}), ['BlockRowOperator.blocks:structure'], distinct=False)
+    add('block-diagonal/list-tuple', lambda: (BlockDiagonalOperator([A(), D3()]), [x3(), ints((3,), dt, 4)], BlockDiagonalOperator((A(), D3())), (x3(), ints((3,), dt, 4))), ['BlockDiagonalOperator.blocks:structure'])
+    add('addition/operands', two(lambda n: AdditionOperator([IdentityOperator(S((3,), dt)), H3(), D3()][:n]), 2, 3, x3), ['AdditionOperator.operands:structure'])
+    add('composition/operands', two(lambda n: CompositionOperator([D3(), H3(), D3()][:n]), 2, 3, x3), ['CompositionOperator.operands:structure'])
+
+    # --- the fields of the configuration stored in a static field.  One CG step of the three a 3x3 system
+    # needs: solver, preconditioner and initial guess all change the values.
+    spd = lambda: DenseBlockDiagonalOperator(jnp.array([[4.0, 1.0, 0.0], [1.0, 3.0, 1.0], [0.0, 1.0, 2.0]], dtype=dt), S((3,), dt), 'ij,j->i')  # noqa: E731
+    rhs = lambda: jnp.array([1.0, 2.0, 3.0], dtype=dt)  # noqa: E731
+    steps = lambda n, r=1e-6: lx.CG(rtol=r, atol=r, max_steps=n)  # noqa: E731
+    prec = lambda v: DiagonalOperator(jnp.array(v, dtype=dt), in_structure=S((3,), dt))  # noqa: E731
+
+    def inv_pair(cfg_a, cfg_b, make=lambda: InverseOperator(spd())):
+        def build():
+            with Config(**{'solver_callback': captured_callback, 'solver': steps(1), **cfg_a()}):
+                a = make()
+            with Config(**{'solver_callback': captured_callback, 'solver': steps(1), **cfg_b()}):
+                b = make()
+            return a, rhs(), b, rhs()
+
+        return build
+
+    CFG = 'InverseOperator.config.'
+    no = lambda: {}  # noqa: E731
+    add('inverse/solver-max-steps', inv_pair(no, lambda: {'solver': steps(2)}), [CFG + 'solver'], exact=False, tol=1e-4)
+    add('inverse/solver-tolerance', inv_pair(lambda: {'solver': steps(500)}, lambda: {'solver': steps(500, 0.25)}), [CFG + 'solver'], exact=False, tol=1e-4)
+    add('inverse/solver-throw', inv_pair(lambda: {'solver': steps(500)}, lambda: {'solver': steps(500), 'solver_throw': True}), [CFG + 'solver_throw'], exact=False, tol=1e-4, distinct=False)
+    add('inverse/options-preconditioner', inv_pair(no, lambda: {'solver_options': {'preconditioner': prec([0.25, 0.5, 1.0])}}), [CFG + 'solver_options'], exact=False, tol=1e-4)
+    add('inverse/options-preconditioner-value', inv_pair(lambda: {'solver_options': {'preconditioner': prec([0.25, 0.5, 1.0])}}, lambda: {'solver_options': {'preconditioner': prec([1.0, 0.5, 0.25])}}), [CFG + 'solver_options'], exact=False, tol=1e-4)
+    add('inverse/options-y0', inv_pair(no, lambda: {'solver_options': {'y0': jnp.ones((3,), dtype=dt)}}), [CFG + 'solver_options'], exact=False, tol=1e-4)
+    add('inverse/options-y0-value', inv_pair(lambda: {'solver_options': {'y0': jnp.ones((3,), dtype=dt)}}, lambda: {'solver_options': {'y0': jnp.array([0.0, 1.0, 0.0], dtype=dt)}}), [CFG + 'solver_options'], exact=False, tol=1e-4)
+    add('inverse/callback', inv_pair(no, lambda: {'solver_callback': captured_callback_b}), [CFG + 'solver_callback'], exact=False, tol=1e-4, distinct=False)
+    add('inverse-in-composition/options-preconditioner', inv_pair(no, lambda: {'solver_options': {'preconditioner': prec([0.25, 0.5, 1.0])}}, make=lambda: InverseOperator(spd()) @ D3()), [CFG + 'solver_options'], exact=False, tol=1e-4)
+    add('inverse-in-block-diagonal/solver', lambda: (lambda t: (t[0], [t[1], x3()], t[2], [t[3], x3()]))(inv_pair(no, lambda: {'solver': steps(2)}, make=lambda: BlockDiagonalOperator([spd(), D3()]).I)()), [CFG + 'solver'], exact=False, tol=1e-4)
+    return out
+
+
+def _is_array(v) -> bool:
+    import jax
+    import numpy as np
+
+    return isinstance(v, (jax.Array, np.ndarray, np.generic))
+
+
+def same_static(u, v) -> bool:
+    """Equality of two values of the static part, decided by the HARNESS (field by field; never through the
+    __eq__ of a furax dataclass): used to establish in which key paths a pair really differs."""
+    import dataclasses
+
+    import equinox as eqx
+    import numpy as np
+
+    if u is v:
+        return True
+    if type(u) is not type(v):
+        return False
+    if isinstance(u, dict):
+        return list(u) == list(v) and all(same_static(u[k], v[k]) for k in u)
+    if isinstance(u, (tuple, list)):
+        return len(u) == len(v) and all(same_static(a, b) for a, b in zip(u, v))
+    if _is_array(u):
+        return u.shape == v.shape and u.dtype == v.dtype and bool(np.array_equal(np.asarray(u), np.asarray(v)))
+    if isinstance(u, eqx.Module):
+        return bool(eqx.tree_equal(u, v))
+    if dataclasses.is_dataclass(u) and not isinstance(u, type):
+        return all(same_static(getattr(u, f.name), getattr(v, f.name)) for f in dataclasses.fields(u))
+    try:
+        return bool(u == v)
+    except Exception:
+        return False
+
+
+def key_diff(a, b) -> list[str]:
+    """The paths of the jit cache key (static fields; structure and Python leaves of dynamic fields; shapes
+    and dtypes of array leaves) in which two operators differ.  `Class.field` names the class of the
+    operator that owns the field (also for nested operators); the fields of a dataclass stored in a static
+    field are named `Class.field.subfield`."""
+    import dataclasses
+
+    import equinox as eqx
+    import jax
+
+    from furax._base.core import AbstractLinearOperator
+
+    is_op = lambda z: isinstance(z, AbstractLinearOperator)  # noqa: E731
+    if type(a) is not type(b):
+        return [f'{type(a).__name__}|{type(b).__name__}:type']
+    out = []
+    for f in dataclasses.fields(a):
+        va, vb = getattr(a, f.name), getattr(b, f.name)
+        p = f'{type(a).__name__}.{f.name}'
+        if f.metadata.get('static'):
+            if is_opaque_record(va) and type(va) is type(vb):
+                out += [f'{p}.{g.name}' for g in dataclasses.fields(va) if not same_static(getattr(va, g.name), getattr(vb, g.name))]
+            elif not same_static(va, vb):
+                out.append(p)
+            continue
+        la, ta = jax.tree.flatten(va, is_leaf=is_op)
+        lb, tb = jax.tree.flatten(vb, is_leaf=is_op)
+        if ta != tb:
+            out.append(p + ':structure')
+            continue
+        for u, v in zip(la, lb):
+            if is_op(u) and is_op(v):
+                out += key_diff(u, v)
+            elif _is_array(u) and _is_array(v):
+                if u.shape != v.shape or u.dtype != v.dtype:
+                    out.append(p + ':aval')
+            elif _is_array(u) or _is_array(v) or not same_static(u, v):
+                out.append(p)
+    return sorted(set(out))
+
+
+_ARRAY = '<array>'
+
+
+def static_key(op):
+    """(treedef, non-array leaves): what a jit taking the operator as argument keys its cache on."""
+    import jax
+
+    leaves, treedef = jax.tree.flatten(op)
+    return treedef, tuple(_ARRAY if _is_array(l) else l for l in leaves)
+
+
+def keys_equal(ka, kb) -> dict:
+    try:
+        out = {'treedef_eq': bool(ka[0] == kb[0])}
+    except Exception as e:
+        out = {'treedef_eq': f'error {type(e).__name__}: {str(e)[:200]}'}
+    try:
+        out['static_leaves_eq'] = bool(ka[1] == kb[1])
+    except Exception as e:
+        out['static_leaves_eq'] = f'error {type(e).__name__}'
+    try:
+        out['hash_eq'] = hash(ka) == hash(kb)
+    except Exception as e:
+        out['hash_eq'] = f'unhashable: {type(e).__name__}'
+    out['equal'] = out['treedef_eq'] is True and out['static_leaves_eq'] is True
+    return out
+
+
+def static_argnums_jit():
+    """A jax.jit that takes the operator as argument the plain way: array leaves traced, the treedef and every
+    other leaf static (a fresh function, hence a fresh cache, per call of this factory)."""
+    from functools import partial
+
+    import jax
+
+    @partial(jax.jit, static_argnums=(0, 1))
+    def apply(treedef, static_leaves, array_leaves, x):
+        it = iter(array_leaves)
+        leaves = [next(it) if s is _ARRAY else s for s in static_leaves]
+        return jax.tree.unflatten(treedef, leaves).mv(x)
+
+    def call(op, x):
+        import jax
+
+        treedef, static_leaves = static_key(op)
+        return apply(treedef, static_leaves, [l for l in jax.tree.leaves(op) if _is_array(l)], x)
+
+    return call
+
+
+def run_pairs(case, workdir: Path):
+    """Two operators that differ in exactly one field of the jit cache key, applied one after the other by the
+    SAME jitted function taking the operator as argument (equinox.filter_jit, and jax.jit with the treedef and
+    the non-array leaves as static arguments), in both orders, and by jits over closures."""
+    import warnings
+
+    import equinox as eqx
+    import jax
+
+    assert bool(jax.config.jax_enable_x64) == bool(case.get('x64', False)), 'x64 mode mismatch'
+    table = pairs(case['dt'])
+    if case['pair'] not in table:
+        return {'missing_pair': case['pair']}
+    spec = table[case['pair']]
+    out = {k: spec[k] for k in ('diff', 'exact', 'apply', 'distinct', 'tol')}
+    out['routes'] = {}
+    with warnings.catch_warnings():
+        warnings.simplefilter('ignore')
+        a, xa, b, xb = spec['build']()
+        ops = {'a': (a, xa), 'b': (b, xb)}
+        out['classes'] = sorted(classes_in(a) | classes_in(b))
+        out['key_diff'] = key_diff(a, b)
+        out['keys'] = keys_equal(static_key(a), static_key(b))
+        out['roundtrip_keys'] = keys_equal(static_key(jax.tree.unflatten(*reversed(jax.tree.flatten(a)))), static_key(b))
+
+        def route(name, who, f):
+            CB_LOG.clear()
+            try:
+                o = leaf_obs(f(*ops[who]))
+            except Exception as e:
+                o = {'error': f'{type(e).__name__}: {str(e)[:300]}'}
+            try:
+                cb = cb_counts()
+            except Exception as e:
+                cb = {'error': f'{type(e).__name__}: {str(e)[:200]}'}
+            o['who'] = who
+            if cb:
+                o['cb'] = cb
+            out['routes'][name] = o
+
+        for w in 'ab':
+            route(f'eager/{w}', w, lambda o, x: o.mv(x))
+        quick = bool(case.get('quick'))
+        for w in '' if quick and spec['apply'] else 'ab':  # (quick tier: the jits over closures belong to the `routes` cases)
+            route(f'jit-closure/{w}', w, lambda o, x: jax.jit(lambda v: o.mv(v))(x))
+        if spec['apply']:
+            for order in ('abab',) if quick else ('abab', 'ba'):
+                fj = eqx.filter_jit(lambda o, v: o.mv(v))
+                for i, w in enumerate(order):
+                    route(f'filter-jit[{order}]/{i + 1}-{w}', w, fj)
+                if True:
+                    sj = static_argnums_jit()
+                    for i, w in enumerate(order[:2]):
+                        route(f'static-argnums-jit[{order[:2]}]/{i + 1}-{w}', w, sj)
+    return out
+
+
+def judge_leaves(name, ref, o, exact, tol, bitwise=False):
+    """One route against its reference (eager application of the same operator)."""
+    import numpy as np
+
+    if 'error' in o:
+        return f'route {name} failed: {o["error"]}'
+    if o['treedef'] != ref['treedef']:
+        return f'route {name} returned structure {o["treedef"]}, eager {ref["treedef"]}'
+    for i, (p, q) in enumerate(zip(ref['leaves'], o['leaves'])):
+        if p['shape'] != q['shape'] or p['dtype'] != q['dtype']:
+            return f'route {name} leaf {i}: shape/dtype {q["shape"]} {q["dtype"]}, eager {p["shape"]} {p["dtype"]}'
+        if p['hex'] == q['hex']:
+            continue
+        vp, vq = leaf_values(p), leaf_values(q)
+        if exact or bitwise:
+            return f'route {name} leaf {i}: values differ bit-wise from eager: {vq[:8].tolist()} vs {vp[:8].tolist()}'
+        t = _num(tol) or TOL.get(p['dtype'], 1e-6)
+        scale = max(1.0, float(np.max(np.abs(vp)))) if vp.size else 1.0
+        worst = float(np.max(np.abs(vp - vq))) if vp.size else 0.0
+        if not worst <= t * scale * 8:
+            return f'route {name} leaf {i}: |difference| {worst:.3g} exceeds {t * scale * 8:.3g}: {vq[:6].tolist()} vs {vp[:6].tolist()}'
+    return None
+
+
+def judge_pairs(case, obs):
+    if 'missing_pair' in obs:
+        return f'no pair named {obs["missing_pair"]}'
+    what = f'the two operators of the pair differ in {obs["key_diff"]}'
+    if obs['key_diff'] != obs['diff']:
+        return f'pair table of harness/c18.py: declared to differ exactly in {obs["diff"]}, but {what}'
+    r = obs['routes']
+    refs = {w: r.get(f'eager/{w}') for w in 'ab'}
+    for w, ref in refs.items():
+        if ref is None or 'error' in ref:
+            return f'eager application of operator {w} failed: {ref}'
+    if obs['distinct'] and judge_leaves('eager/b', refs['a'], refs['b'], True, None) is None and refs['a'].get('cb') == refs['b'].get('cb'):
+        return f'pair table of harness/c18.py: {what} and are declared to act differently, but their eager results coincide'
+    for name, o in r.items():
+        if name.startswith('eager/'):
+            continue
+        w = o['who']
+        other = 'b' if w == 'a' else 'a'
+        msg = judge_leaves(name, refs[w], o, obs['exact'], obs['tol'])
+        if msg is None and 'error' not in o and o.get('cb', {}) != refs[w].get('cb', {}):
+            msg = f'route {name}: solver callbacks that ran: {o.get("cb", {})}, eager application of the same operator: {refs[w].get("cb", {})}'
+        if msg:
+            conflated = 'error' not in o and judge_leaves(name, refs[other], o, obs['exact'], obs['tol']) is None and o.get('cb', {}) == refs[other].get('cb', {})
+            return (
+                f'operator {w} of the pair ({what}): {msg}'
+                + (f' - it IS the eager result of operator {other}: the two share one compiled function (jit cache conflation)' if conflated else '')
+                + f' (order of the calls: {" -> ".join(r)})'
+            )
+    for k in ('keys', 'roundtrip_keys'):
+        if isinstance(obs[k]['treedef_eq'], str) or isinstance(obs[k]['static_leaves_eq'], str):
+            return (
+                f'{what}: comparing their static parts (treedef and non-array leaves: what a jit taking the operator as argument '
+                f'compares with == to look its cache up) RAISED: {obs[k]}'
+            )
+        if obs[k]['equal']:
+            return (
+                f'{what}, yet their static parts (treedef and non-array leaves: the cache key of a jit that takes the operator as '
+                f'argument) compare EQUAL{" after a flatten/unflatten round trip of the first" if k == "roundtrip_keys" else ""}: {obs[k]}'
+            )
+    return None
+
+
+# kinds of DYNAMIC fields whose leaves are Python objects: static under a jit that keeps non-array fields static
+PYTHON_LEAF_KINDS = ('KInt', 'KOptInt', 'KStr', 'KBool', 'KIntTuple', 'KIndexTuple')
+
 VARIANT_TAGS = {
     # field kind -> the variants of an array-typed field that the instance table must contain
     'KArray': ('0d', '1elem', 'rank2', 'int', 'float'),
@@ -643,11 +1103,16 @@ def run_coverage(case, workdir: Path):
     tr.import_all()
     _, finfo = tr.gen_fieldtable()
     kinds = {(c, n): k for c, fs in finfo.items() for n, st, k in fs if not st}
+    static_kinds = {(c, n): k for c, fs in finfo.items() for n, st, k in fs if st}
+
+    records: dict[tuple[str, str], type] = {}  # static fields that store an opaque record (ConfigState)
 
     def walk(o):
         for f in dataclasses.fields(o):
             v = getattr(o, f.name)
             k = kinds.get((type(o).__name__, f.name))
+            if f.metadata.get('static') and is_opaque_record(v):
+                records[(type(o).__name__, f.name)] = type(v)
             if k in VARIANT_TAGS:
                 tags.setdefault((type(o).__name__, f.name), set()).update(field_variant_tags(k, v))
             for leaf in jax.tree.leaves(v, is_leaf=lambda z: isinstance(z, AbstractLinearOperator)):
@@ -680,9 +1145,32 @@ def run_coverage(case, workdir: Path):
             for t in VARIANT_TAGS[k]:
                 if t not in have and (c.__name__, n, t) not in exempt:
                     gaps.append([c.__name__, n, t])
+    # every field of the jit cache key of every concrete class has a PAIR of operators differing exactly there
+    with warnings.catch_warnings():
+        warnings.simplefilter('ignore')
+        ptable = pairs('f32')
+        paired: set[str] = set()
+        for name, spec in ptable.items():
+            paired.update(spec['diff'])
+            a, _, b, _ = spec['build']()
+            walk(a)
+            walk(b)
+    required = []
+    for c in concrete:
+        for n, st, k in finfo.get(c.__name__, []):
+            path = f'{c.__name__}.{n}'
+            if st and (c.__name__, n) in records:
+                required += [f'{path}.{g.name}' for g in dataclasses.fields(records[(c.__name__, n)])]
+            elif st and k in tr.STATIC_RECORD_KINDS:
+                required.append(path + '.<no instance stores a record here>')
+            elif st or k in PYTHON_LEAF_KINDS:
+                required.append(path)
+            elif k == 'KOperators':
+                required.append(path + ':structure')
+    pair_gaps = sorted(set(required) - paired)
     return {
         'covered': sorted(seen), 'missing': [k.__name__ for k in concrete if k.__name__ not in seen],
-        'variant_gaps': sorted(gaps), 'stale_exemptions': stale,
+        'variant_gaps': sorted(gaps), 'stale_exemptions': stale, 'key_fields': sorted(required), 'pair_gaps': pair_gaps,
         'variants': {f'{c}.{n}': sorted(t) for (c, n), t in sorted(tags.items())},
     }
 
@@ -696,7 +1184,10 @@ def run_static(case):
     tr.import_all()
     ops = tr.all_operator_classes()
     _, finfo = tr.gen_fieldtable()
-    return {'hidden_state': tr.hidden_state_scan(ops), 'conversions': tr.conversion_scan(ops, finfo), 'classes': len(ops)}
+    return {
+        'hidden_state': tr.hidden_state_scan(ops), 'conversions': tr.conversion_scan(ops, finfo), 'classes': len(ops),
+        'static_equality': tr.static_equality_scan(ops, finfo)[0], 'ambient_reads': tr.ambient_read_scan(ops),
+    }
 
 
 def shape_level_probe(workdir: Path):
@@ -814,7 +1305,13 @@ def as_matrix_obs(op, x):
 
 
 # instances whose as_matrix is not an application of mv under a trace that the oracle can compare
-AS_MATRIX_SKIP: dict[str, str] = {}
+_COARSE = 'InverseOperator.as_matrix is the exact inverse matrix, mv a conjugate gradient stopped after one step'
+AS_MATRIX_SKIP: dict[str, str] = {
+    n: _COARSE for n in (
+        'inverse-cg-coarse', 'inverse-cg-coarse-preconditioned', 'inverse-cg-coarse-y0', 'inverse-of-addition', 'inverse-in-composition',
+        'inverse-in-addition', 'inverse-in-block-diagonal', 'inverse-nested-two-configs',
+    )
+}
 
 
 def run_routes(case, workdir: Path):
@@ -849,10 +1346,17 @@ def run_routes(case, workdir: Path):
         hidden_before = hidden_attrs(op)
 
         def route(name, f, obs=leaf_obs):
+            CB_LOG.clear()
             try:
                 out['routes'][name] = obs(f())
             except Exception as e:
                 out['routes'][name] = {'error': f'{type(e).__name__}: {str(e)[:300]}'}
+            try:
+                cb = cb_counts()
+            except Exception as e:  # a callback that raised surfaces at the barrier
+                cb = {'error': f'{type(e).__name__}: {str(e)[:200]}'}
+            if cb:
+                out['routes'][name]['cb'] = cb
 
         def fresh(tag):
             o, _ = builder()
@@ -927,6 +1431,8 @@ def run_routes(case, workdir: Path):
             route('seqE/1-filter-jit-first', lambda: fj(oe, x))
             route('seqE/2-eager', lambda: oe.mv(x))
             route('seqE/3-jit-closure', lambda: jax.jit(lambda v: oe.mv(v))(x))
+        # the AMBIENT configuration differs between trace time and call time
+        ambient_sequences(case, out, route, fresh, builder, op, x, mask)
         # declared output structure vs what eager returned
         try:
             out['declared_out'] = structure_str(op.out_structure())
@@ -939,6 +1445,148 @@ def run_routes(case, workdir: Path):
         # field facts for the partition correspondence
         out['facts'] = field_facts(op)
     return out
+
+
+def is_opaque_record(v) -> bool:
+    """A dataclass instance that JAX treats as ONE opaque leaf (not a registered pytree node, not an equinox
+    module): a record of Python objects stored whole in a static field (ConfigState)."""
+    import dataclasses
+
+    import jax
+
+    if not dataclasses.is_dataclass(v) or isinstance(v, type):
+        return False
+    leaves = jax.tree.leaves(v)
+    return len(leaves) == 1 and leaves[0] is v
+
+
+def config_holders(op) -> list[str]:
+    """Paths of the fields (of the operator or of any nested operator) that store a configuration object: a
+    dataclass instance that is not a pytree of arrays (ConfigState in InverseOperator.config)."""
+    import dataclasses
+
+    import equinox as eqx
+    import jax
+
+    from furax._base.core import AbstractLinearOperator
+
+    out = []
+
+    def walk(o):
+        for f in dataclasses.fields(o):
+            v = getattr(o, f.name, None)
+            if is_opaque_record(v):
+                out.append(f'{type(o).__name__}.{f.name}')
+            for leaf in jax.tree.leaves(v, is_leaf=lambda z: isinstance(z, AbstractLinearOperator)):
+                if isinstance(leaf, AbstractLinearOperator):
+                    walk(leaf)
+
+    walk(op)
+    return sorted(set(out))
+
+
+def ambient_alternatives(op):
+    """Per field of the configuration class: alternative values for the AMBIENT configuration (all differ
+    from what the instance tables capture).  -> (alternatives, fields of ConfigState without alternative)."""
+    import dataclasses
+
+    import jax
+    import jax.numpy as jnp
+    import lineax as lx
+
+    from furax._base.config import ConfigState
+
+    ones = jax.tree.map(lambda s: jnp.ones(s.shape, s.dtype), op.in_structure())
+    alts = {
+        # two steps: differs visibly both from a captured converged solver and from a captured one-step solver (3x3 systems)
+        'solver': [('2-steps', lx.CG(rtol=1e-12, atol=1e-12, max_steps=2)), ('default', ConfigState().solver)],
+        'solver_throw': [('True', True)],
+        'solver_options': [('y0', {'y0': ones})],
+        'solver_callback': [('recording', ambient_callback)],
+    }
+    names = [f.name for f in dataclasses.fields(ConfigState)]
+    gap = sorted(set(names) ^ set(alts))
+    return {k: alts[k] for k in names if k in alts}, gap
+
+
+def ambient_sequences(case, out, route, fresh, builder, op, x, mask):
+    """Every route with the active (ambient) furax configuration DIFFERENT at trace time and at call time.
+    An operator captures its configuration when it is built; what is active later - when a jitted function
+    is traced, when it is called, when the operator is applied eagerly or rebuilt from its leaves - must not
+    matter.  All results are compared with the plain eager application (`eager`, default ambient).
+
+      A  trace INSIDE a `with Config(...)` block (jit over a closure, jit taking the operator as argument,
+         round trip), apply eagerly inside, then call the same jitted functions OUTSIDE the block
+      B  trace OUTSIDE, then call the same jitted functions (and trace a new one, and apply eagerly) INSIDE
+
+    Operators that hold a configuration get one variant per configuration field and alternative value plus
+    the all-fields variant, with both sequences; the others the all-fields variant of sequence A.  (Quick
+    tier, case['amb'] an integer: two single-field variants per case, sequence B for the all-fields variant
+    only, and for the operators that hold no configuration the jit over a closure only.)"""
+    import equinox as eqx
+    import jax
+
+    from furax import Config
+
+    holders = config_holders(op)
+    thorough = case.get('amb', 'full') == 'full'
+    alts, gap = ambient_alternatives(op)
+    variants = [('all-fields', {k: v[0][1] for k, v in alts.items()})]
+    if holders:
+        singles = [(f'{k}={tag}', {k: val}) for k, vs in alts.items() for tag, val in vs]
+        amb = case.get('amb', 'full')
+        if amb == 'all-fields':
+            singles = []
+        elif amb != 'full':
+            # quick tier: two single-field variants per case, rotating with the case so that the holder
+            # instances (default / one-step / preconditioned / nested ... captured configurations) share them out
+            singles = [singles[(int(amb) + j * 3) % len(singles)] for j in range(2)] if len(singles) > 2 else singles
+        variants += singles
+    out['ambient'] = {'holders': holders, 'unvaried_config_fields': gap, 'variants': [t for t, _ in variants]}
+    rt = lambda o: jax.tree.unflatten(*reversed(jax.tree.flatten(o)))  # noqa: E731
+    for tag, amb in variants:
+        p = f'ambient[{tag}]'
+        oa = fresh(p + '/A')
+        fa = jax.jit(lambda v, o=oa: o.mv(v))
+        fja = eqx.filter_jit(lambda o, v: o.mv(v))
+        made_inside = {}
+        with Config(**amb):
+            route(f'{p}/A1-jit-closure-traced-inside', lambda: fa(x))
+            route(f'{p}/A2-eager-inside', lambda: oa.mv(x))
+            if not mask and (holders or thorough):
+                route(f'{p}/A3-jit-argument-traced-inside', lambda: fja(oa, x))
+            if holders:
+                def a4():
+                    made_inside['rt'] = rt(oa)
+                    return made_inside['rt'].mv(x)
+
+                route(f'{p}/A4-roundtrip-made-inside-eager-inside', a4)
+        route(f'{p}/A5-jit-closure-called-outside', lambda: fa(x))
+        if not mask and (holders or thorough):
+            route(f'{p}/A6-jit-argument-called-outside', lambda: fja(oa, x))
+        if not holders:
+            continue
+        route(f'{p}/A7-eager-outside', lambda: oa.mv(x))
+        if 'rt' in made_inside:
+            route(f'{p}/A8-roundtrip-made-inside-eager-outside', lambda: made_inside['rt'].mv(x))
+        if not mask:
+            route(f'{p}/A9-jit-argument-equal-object-outside', lambda: fja(*builder()))
+        if not thorough and (tag != 'all-fields' or case.get('amb') == 'all-fields'):
+            continue  # quick tier: the trace-outside / call-inside sequence for the all-fields variant (x64 off) only
+        ob = fresh(p + '/B')
+        fb = jax.jit(lambda v, o=ob: o.mv(v))
+        fjb = eqx.filter_jit(lambda o, v: o.mv(v))
+        route(f'{p}/B1-jit-closure-traced-outside', lambda: fb(x))
+        if not mask:
+            route(f'{p}/B2-jit-argument-traced-outside', lambda: fjb(ob, x))
+        with Config(**amb):
+            route(f'{p}/B3-jit-closure-called-inside', lambda: fb(x))
+            if not mask:
+                route(f'{p}/B4-jit-argument-called-inside', lambda: fjb(ob, x))
+            route(f'{p}/B5-eager-inside', lambda: ob.mv(x))
+            if tag == 'all-fields':
+                route(f'{p}/B6-new-jit-closure-traced-inside', lambda: jax.jit(lambda v: ob(v))(x))
+                route(f'{p}/B7-roundtrip-made-inside-jit-inside', lambda: jax.jit(lambda v: rt(ob).mv(v))(x))
 
 
 def field_facts(op):
@@ -976,6 +1624,18 @@ def _num(v):
 
 
 BITWISE_STEPS = ('call', 'roundtrip', 'main/eager-again', 'seqB/2-eager', 'seqB/5-roundtrip-eager', 'seqC/2-eager', 'seqD/2-eager', 'seqE/2-eager')
+BITWISE_SUFFIXES = ('-eager-inside', '-eager-outside')  # ambient sequences: eager application of an equal object
+
+
+def is_bitwise(name: str) -> bool:
+    return name in BITWISE_STEPS or name.endswith(BITWISE_SUFFIXES)
+
+
+AMBIENT_NOTE = (
+    ' [ambient sequence: `inside` = while a `with Config(...)` block replacing the named field(s) of the active furax '
+    'configuration is active, `outside` = under the default configuration; the operator captured its configuration when it was '
+    'built, so neither the configuration active at trace time nor the one active at call time may matter]'
+)
 
 
 def judge_routes(case, obs):
@@ -999,12 +1659,24 @@ def judge_routes(case, obs):
     for k in ('in_structure', 'out_structure'):
         if rt[k][0] != rt[k][1]:
             return f'round-tripped operator has a different {k}: {rt[k][1]} vs {rt[k][0]}'
-    order = ' (sequence order: ' + ' -> '.join(r) + ')'
+    amb = obs.get('ambient', {})
+    if amb.get('unvaried_config_fields'):
+        return f'fields of ConfigState without an alternative value in harness/c18.py ambient_alternatives (ambient sequences do not vary them): {amb["unvaried_config_fields"]}'
+    base_order = ' (sequence order: ' + ' -> '.join(n for n in r if not n.startswith('ambient[')) + ')'
+    ref_cb = ref.get('cb', {})
     for name, o in r.items():
         if name == 'eager':
             continue
+        ambient = name.startswith('ambient[')
+        order = AMBIENT_NOTE if ambient else base_order
+        note = (f' [the routes left per-object state behind: {hs["gained"]}]' if hs.get('gained') else '') + (AMBIENT_NOTE if ambient else '')
+        cb = o.get('cb', {})
+        if cb.get('ambient') or 'error' in cb:
+            return f'route {name}: the solver callback of the ACTIVE configuration ran (the operator captured another one when it was built): {cb}{note}'
+        if 'error' not in o and 'asmatrix' not in o and 'hex' in (o.get('leaves') or [{}])[0] and bool(cb) != bool(ref_cb):
+            return f'route {name}: solver callbacks that ran: {cb}, eager application: {ref_cb}{note}'
         if 'error' in o:
-            return f'route {name} failed: {o["error"]}{note}{order}'
+            return f'route {name} failed: {o["error"]}{note}{"" if ambient else order}'
         if 'asmatrix' in o:
             am = o['asmatrix']
             want = np.concatenate([leaf_values(l).ravel() for l in ref['leaves']]) if ref['leaves'] else np.zeros(0)
@@ -1029,7 +1701,7 @@ def judge_routes(case, obs):
             if 'hex' not in b or a['hex'] == b['hex']:
                 continue
             va, vb = leaf_values(a), leaf_values(b)
-            if obs['exact'] or name in BITWISE_STEPS:
+            if obs['exact'] or is_bitwise(name):
                 # same program on the same data (call, eager on an equal object / after a round trip) or
                 # exact arithmetic: bit for bit
                 return f'route {name} leaf {i}: values differ bit-wise from eager: {vb[:8].tolist()} vs {va[:8].tolist()}{note}'
@@ -1054,6 +1726,8 @@ def worker_main():
         try:
             if req['op'] == 'routes':
                 res = {'ok': lib.canon(run_routes(req['case'], workdir))}
+            elif req['op'] == 'pairs':
+                res = {'ok': lib.canon(run_pairs(req['case'], workdir))}
             elif req['op'] == 'reg':
                 res = {'ok': lib.canon(run_reg(req['case']))}
             elif req['op'] == 'config':
@@ -1179,6 +1853,9 @@ class Check(PropertyCheck):
             raise Tie(f'default objects of the registered constructors changed: {ids} (harness maps id 1 to numpy.float64)')
         self.stats['hidden_state'] = self._tr['hidden_state']
         self.stats['python_level_conversions_of_traced_fields'] = self._tr['conversions']
+        self.stats['ambient_state_reads_outside_constructors'] = self._tr['ambient_reads']
+        self.stats['static_fields_not_compared'] = self._tr['static_equality']
+        self.stats['records_stored_in_static_fields'] = self._tr['static_records']
 
     def gen_files(self):
         return ['PytreeReg.v', 'FieldTable.v']
@@ -1291,20 +1968,36 @@ class Check(PropertyCheck):
         # `first`: which route touches a fresh object (and, in the x64-on worker processes, the class in
         # the process) first - eager or a trace; `asm`: as_matrix sequences ('first': on a fresh object
         # before any other use; 'both': also on the first object after all its other routes)
-        for n in names:
-            cases.append({'kind': 'routes', 'inst': n, 'dt': 'f32', 'x64': False, 'first': 'eager', 'asm': 'first' if quick else 'both'})
-            cases.append({'kind': 'routes', 'inst': n, 'dt': 'f64', 'x64': True, 'first': 'traced', 'asm': False if quick else 'both'})
+        # `amb`: the single-field variants of the ambient-configuration sequences for the operators that hold a
+        # configuration ('full': all of them, both sequences; an integer: two of them, rotating with the instance;
+        # 'all-fields': none, and sequence A only)
+        for i, n in enumerate(names):
+            cases.append({'kind': 'routes', 'inst': n, 'dt': 'f32', 'x64': False, 'first': 'eager', 'asm': 'first' if quick else 'both', 'amb': i if quick else 'full'})
+            cases.append({'kind': 'routes', 'inst': n, 'dt': 'f64', 'x64': True, 'first': 'traced', 'asm': False if quick else 'both', 'amb': 'all-fields' if quick else 'full'})
             if not quick or n.startswith((
                 'toeplitz-dense', 'toeplitz-fft', 'toeplitz-overlap', 'dense', 'index-int-array', 'index-0d', 'index-1d-and', 'diagonal-l',
-                'diagonal-int', 'qu-rotation-generic-IQU', 'qu-rotation-0d', 'qu-rotation-int', 'homothety-int', 'inverse', 'composition',
+                'diagonal-int', 'qu-rotation-generic-IQU', 'qu-rotation-0d', 'qu-rotation-int', 'homothety-int', 'inverse-cg', 'inverse-nested', 'composition',
             )):
-                cases.append({'kind': 'routes', 'inst': n, 'dt': 'f32', 'x64': True, 'first': 'eager', 'asm': False if quick else 'first'})
+                cases.append({'kind': 'routes', 'inst': n, 'dt': 'f32', 'x64': True, 'first': 'eager', 'asm': False if quick else 'first', 'amb': 'all-fields' if quick else 'full'})
+        return cases
+
+    def pair_cases(self):
+        quick = self.tier == 'quick'
+        names = sorted(pairs('f64' if x64_mode() else 'f32'))
+        q = {'quick': True} if quick else {}
+        cases = [{'kind': 'pairs', 'pair': n, 'dt': 'f32', 'x64': False, **q} for n in names]
+        for i, n in enumerate(names):
+            # x64 on: in the quick tier the pairs on a stored configuration only
+            if not quick or n.startswith('inverse'):
+                cases.append({'kind': 'pairs', 'pair': n, 'dt': 'f64', 'x64': True, **q})
+            if not quick:
+                cases.append({'kind': 'pairs', 'pair': n, 'dt': 'f32', 'x64': True})
         return cases
 
     def cases(self):
         # the static scans and the coverage requirements first: their replays are the most informative
         cases = [{'kind': 'static', 'x64': x64_mode()}, {'kind': 'coverage', 'x64': x64_mode()}]
-        cases += self.reg_cases() + self.route_cases()
+        cases += self.reg_cases() + self.route_cases() + self.pair_cases()
         cases += [{'kind': 'config', 'throw': t, 'options': o, 'x64': False} for t in (False, True) for o in (False, True)]
         # landscapes under x64 as well (action: full/normal/world2index in float64)
         for c in [c for c in cases if c['kind'] == 'reg'][:: (9 if self.tier == 'quick' else 2)]:
@@ -1337,6 +2030,8 @@ class Check(PropertyCheck):
         d = {}
         for c in cases:
             k = c['kind'] + ('/x64' if c.get('x64') else '') + ('/' + c['cls'] if c['kind'] == 'reg' else '/' + c.get('dt', ''))
+            if c['kind'] == 'routes' and c['inst'].startswith('inverse'):
+                k += '/holds-configuration'
             d[k] = d.get(k, 0) + 1
         return d
 
@@ -1345,11 +2040,11 @@ class Check(PropertyCheck):
             return isinstance(obs, dict) and obs.get('ctor') == 'ok'
         if case['kind'] in ('config', 'coverage', 'static'):
             return False
-        return isinstance(obs, dict) and 'routes' in obs
+        return isinstance(obs, dict) and 'routes' in obs and (case['kind'] != 'pairs' or obs.get('distinct') or obs.get('key_diff'))
 
     # ---- implementation ----------------------------------------------------------------------
-    N_OTHER_MODE = 4  # worker processes for the cases of the other x64 mode
-    N_SAME_MODE = 2   # worker processes sharing the cases of this process's mode
+    N_OTHER_MODE = 5  # worker processes for the cases of the other x64 mode
+    N_SAME_MODE = 3   # worker processes sharing the cases of this process's mode
 
     def _start_prefetch(self):
         """The cases of the other x64 mode run in worker subprocesses while this process does (its share
@@ -1361,14 +2056,18 @@ class Check(PropertyCheck):
         other = [c for c in self._cases if bool(c.get('x64', False)) != mode]
         for i, c in enumerate(other):
             plan.setdefault((not mode, i % self.N_OTHER_MODE), []).append(c)
-        same = [c for c in self._cases if bool(c.get('x64', False)) == mode and c['kind'] == 'routes']
+        same = [c for c in self._cases if bool(c.get('x64', False)) == mode and c['kind'] in ('routes', 'pairs')]
         for i, c in enumerate(same):
             if self.N_SAME_MODE and i % (self.N_SAME_MODE + 1):
                 plan.setdefault((mode, i % (self.N_SAME_MODE + 1)), []).append(c)
         self._assigned = {lib.case_id(c) for todo in plan.values() for c in todo}
 
         def go(slot, todo):
+            import time
+
+            t0 = time.time()
             for c in todo:
+                self.stats.setdefault('worker_wall_s', {})[f'{"x64-on" if slot[0] else "x64-off"}/{slot[1]}'] = [len(todo), round(time.time() - t0, 1)]
                 try:
                     self._prefetched[lib.case_id(c)] = ask(slot[0], {'op': c['kind'], 'case': lib.pub(c)}, slot[1])
                 except Exception as e:
@@ -1401,6 +2100,8 @@ class Check(PropertyCheck):
             obs = lib.canon(run_coverage(case, self.workdir))
         elif case['kind'] == 'static':
             obs = lib.canon(run_static(case))
+        elif case['kind'] == 'pairs':
+            obs = lib.canon(run_pairs(case, self.workdir))
         else:
             obs = lib.canon(run_routes(case, self.workdir))
         self._obs[cid] = obs
@@ -1408,7 +2109,7 @@ class Check(PropertyCheck):
 
     # ---- model -------------------------------------------------------------------------------
     def model_term(self, case):
-        if case['kind'] in ('config', 'coverage', 'static'):
+        if case['kind'] in ('config', 'coverage', 'static', 'pairs'):
             return None
         if case['kind'] == 'reg':
             args = clist(case['args'], coq_val)
@@ -1450,6 +2151,8 @@ class Check(PropertyCheck):
     def oracle(self, case, obs):
         if case['kind'] == 'routes':
             return judge_routes(case, obs)
+        if case['kind'] == 'pairs':
+            return judge_pairs(case, obs)
         if case['kind'] == 'coverage':
             if obs.get('missing'):
                 return f'operator classes of the package without an instance in harness/c18.py (four-route test does not cover them): {obs["missing"]}'
@@ -1460,6 +2163,11 @@ class Check(PropertyCheck):
                 )
             if obs.get('stale_exemptions'):
                 return f'variant exemptions whose constructor call no longer raises (add the variant as an instance): {obs["stale_exemptions"]}'
+            if obs.get('pair_gaps'):
+                return (
+                    'fields of the jit cache key (static fields, fields of records stored in static fields, Python leaves and container '
+                    f'structure of dynamic fields) without a pair of operators differing exactly there in harness/c18.py pairs(): {obs["pair_gaps"]}'
+                )
             return None
         if case['kind'] == 'static':
             if obs.get('hidden_state'):
@@ -1471,6 +2179,17 @@ class Check(PropertyCheck):
                 return (
                     'array fields that Model.PytreeReg.model_uses classifies value-level are converted at Python level in the code '
                     f'reachable from mv (raises when the operator is a jit ARGUMENT and the field a tracer): {obs["conversions"]}'
+                )
+            if obs.get('ambient_reads'):
+                return (
+                    'methods of operator classes read AMBIENT state (the active configuration) outside the constructor: eagerly that is '
+                    'the configuration active at call time, under jit the one active at TRACE time, frozen in the compiled function - '
+                    f'eager and jitted application disagree as soon as the two differ: {obs["ambient_reads"]}'
+                )
+            if obs.get('static_equality'):
+                return (
+                    'the static part of an operator is the cache key of a jit that takes the operator as argument, but not every field '
+                    f'takes part in its comparison (operators differing only there share one compiled function): {obs["static_equality"]}'
                 )
             return None
         if case['kind'] == 'config':
@@ -1498,6 +2217,8 @@ class Check(PropertyCheck):
             return f'roundtrip-{case["cls"]}-{obs.get("back")}'
         if case['kind'] == 'routes':
             return f'routes-{case["inst"]}'
+        if case['kind'] == 'pairs':
+            return f'pairs-{case["pair"]}'
         if case['kind'] == 'static':
             return 'static-scan'
         return case.get('key')
@@ -1550,6 +2271,15 @@ class Check(PropertyCheck):
             per_mode[key] = per_mode.get(key, 0) + 1
             if obs['mask']:
                 masks[c['inst'] + '/' + key] = obs.get('mask_filter_jit')
+        npairs = npair_routes = nambient = 0
+        for c in self._cases:
+            obs = self._obs.get(lib.case_id(c))
+            if isinstance(obs, dict) and 'routes' in obs:
+                if c['kind'] == 'pairs':
+                    npairs += 1
+                    npair_routes += len(obs['routes'])
+                else:
+                    nambient += sum(1 for n in obs['routes'] if n.startswith('ambient['))
         classes = tr.all_operator_classes()
         concrete_missing = sorted(k.__name__ for k in classes if not inspect.isabstract(k) and k.__name__ not in seen)
         abstract = sorted(k.__name__ for k in classes if inspect.isabstract(k))
@@ -1562,6 +2292,9 @@ class Check(PropertyCheck):
             'route_instances': sum(per_mode.values()),
             'instances_per_mode': per_mode,
             'routes_executed': nroutes,
+            'of_which_with_ambient_configuration_differing_between_trace_and_call': nambient,
+            'pairs_differing_in_one_cache_key_field': npairs,
+            'pair_routes_executed': npair_routes,
             'values_compared': nvalues,
             'instances_compared_bit_for_bit': nexact,
             'operator_classes_covered': sorted(seen),
